@@ -45,6 +45,13 @@ type engStore struct {
 	ameta  map[string]metadata.Metadata
 	gate   func(logs []*ledger.ChainedLog) error // scheduler gate; nil = pass
 	reads  int
+	note   func(ctx context.Context, e J) // records a store read in the trace of the current schedule
+}
+
+func (st *engStore) rec(ctx context.Context, e J) {
+	if st.note != nil {
+		st.note(ctx, e)
+	}
 }
 
 func (st *engStore) txs() []*ledger.ExpandedTransaction {
@@ -102,6 +109,7 @@ func (st *engStore) GetBalance(ctx context.Context, address, asset string) (*big
 			}
 		}
 	}
+	st.rec(ctx, J{"store": "balance", "acct": address, "asset": asset, "value": b.String()})
 	return b, nil
 }
 
@@ -174,9 +182,11 @@ func (st *engStore) ReadLogWithIdempotencyKey(ctx context.Context, key string) (
 	defer st.mu.Unlock()
 	for _, l := range st.logs {
 		if l.IdempotencyKey == key {
+			st.rec(ctx, J{"store": "ik", "key": key, "found": l.ID.String()})
 			return l, nil
 		}
 	}
+	st.rec(ctx, J{"store": "ik", "key": key, "found": nil})
 	return nil, sqlutils.ErrNotFound
 }
 
@@ -185,9 +195,11 @@ func (st *engStore) GetTransactionByReference(ctx context.Context, ref string) (
 	defer st.mu.Unlock()
 	for _, t := range st.txs() {
 		if t.Reference == ref {
+			st.rec(ctx, J{"store": "ref", "ref": ref, "found": true})
 			return t, nil
 		}
 	}
+	st.rec(ctx, J{"store": "ref", "ref": ref, "found": false})
 	return nil, sqlutils.ErrNotFound
 }
 
@@ -197,9 +209,11 @@ func (st *engStore) GetTransaction(ctx context.Context, id *big.Int) (*ledger.Tr
 	for _, t := range st.txs() {
 		if t.ID.Cmp(id) == 0 {
 			tx := t.Transaction
+			st.rec(ctx, J{"store": "tx", "txid": id.String(), "found": true, "reverted": t.Reverted})
 			return &tx, nil
 		}
 	}
+	st.rec(ctx, J{"store": "tx", "txid": id.String(), "found": false, "reverted": false})
 	return nil, sqlutils.ErrNotFound
 }
 
@@ -210,6 +224,7 @@ type engArrival struct {
 	point string
 	kind  int // 0 parked at a yield, 1 finished, 2 gate arrival
 	logs  []*ledger.ChainedLog
+	resp  J
 }
 
 type engLockReq struct {
@@ -242,6 +257,7 @@ type engSched struct {
 	lastPoint   map[int]string
 	dry         map[int]bool
 	actorGen    map[int]int
+	lastCommit  *ledger.ChainedLog // the log the next commit must chain onto (harness's own bookkeeping)
 }
 
 func (s *engSched) Yield(actor int, point string) {
@@ -336,7 +352,10 @@ type engMonitor struct {
 	st *engStore
 }
 
-func (m *engMonitor) rec(e J) {
+func (m *engMonitor) rec(ctx context.Context, e J) {
+	if a, ok := ctx.Value(engActorKey{}).(int); ok {
+		e["a"] = a
+	}
 	m.st.mu.Lock()
 	e["durable"] = len(m.st.logs)
 	m.st.mu.Unlock()
@@ -346,16 +365,16 @@ func (m *engMonitor) rec(e J) {
 	m.s.mu.Unlock()
 }
 func (m *engMonitor) CommittedTransactions(ctx context.Context, tx ledger.Transaction, am map[string]metadata.Metadata) {
-	m.rec(J{"type": "committed", "tx": txJ(&tx), "ameta": am})
+	m.rec(ctx, J{"type": "committed", "tx": txJ(&tx), "ameta": am})
 }
 func (m *engMonitor) SavedMetadata(ctx context.Context, targetType, id string, md metadata.Metadata) {
-	m.rec(J{"type": "saved_meta", "target_type": targetType, "target": id, "metadata": md})
+	m.rec(ctx, J{"type": "saved_meta", "target_type": targetType, "target": id, "metadata": md})
 }
 func (m *engMonitor) RevertedTransaction(ctx context.Context, reverted, revert *ledger.Transaction) {
-	m.rec(J{"type": "reverted", "reverted": txJ(reverted), "revert": txJ(revert)})
+	m.rec(ctx, J{"type": "reverted", "reverted": txJ(reverted), "revert": txJ(revert)})
 }
 func (m *engMonitor) DeletedMetadata(ctx context.Context, targetType string, targetID any, key string) {
-	m.rec(J{"type": "deleted_meta", "target_type": targetType, "target": fmt.Sprint(targetID), "key": key})
+	m.rec(ctx, J{"type": "deleted_meta", "target_type": targetType, "target": fmt.Sprint(targetID), "key": key})
 }
 
 func txJ(t *ledger.Transaction) J {
@@ -514,6 +533,7 @@ func runEngineSchedule(reqs []engReq, funding [][]string, ameta [][]string, plan
 		prev = l
 	}
 	nFunding := len(st.logs)
+	initialLast := prev
 
 	s := &engSched{arrive: make(chan engArrival, 256), resume: map[int]chan error{}, parked: map[int]string{}, waiting: map[int]bool{},
 		lastPoint: map[int]string{}, dry: map[int]bool{}, actorGen: map[int]int{}, deadGen: map[int]bool{}}
@@ -523,6 +543,14 @@ func runEngineSchedule(reqs []engReq, funding [][]string, ameta [][]string, plan
 	mon := &engMonitor{s: s, st: st}
 	var cmd *command.Commander
 	gateFails := 0
+	st.note = func(ctx context.Context, e J) {
+		if a, ok := ctx.Value(engActorKey{}).(int); ok {
+			e["a"] = a
+			s.mu.Lock()
+			s.trace = append(s.trace, e)
+			s.mu.Unlock()
+		}
+	}
 	newCommander := func() {
 		gen := s.gen
 		st.gate = func(logs []*ledger.ChainedLog) error {
@@ -543,6 +571,7 @@ func runEngineSchedule(reqs []engReq, funding [][]string, ameta [][]string, plan
 		}()
 	}
 	newCommander()
+	s.lastCommit = initialLast
 
 	type resp struct {
 		Req     int
@@ -603,7 +632,11 @@ func runEngineSchedule(reqs []engReq, funding [][]string, ameta [][]string, plan
 			respMu.Lock()
 			responses = append(responses, resp{Req: i, OK: err == nil, Err: engClassify(err), Tx: txJ(tx), Durable: d})
 			respMu.Unlock()
-			s.arrive <- engArrival{actor: i, kind: 1}
+			rj := J{"ok": err == nil, "err": engClassify(err), "txid": nil}
+			if tx != nil && tx.ID != nil {
+				rj["txid"] = tx.ID.String()
+			}
+			s.arrive <- engArrival{actor: i, kind: 1, resp: rj}
 		}()
 	}
 
@@ -617,9 +650,28 @@ func runEngineSchedule(reqs []engReq, funding [][]string, ameta [][]string, plan
 				case 0:
 					s.parked[e.actor] = e.point
 					s.expect--
+					if e.point == "wait" && (s.lastPoint[e.actor] == "commit" || s.lastPoint[e.actor] == "handoff") && !s.dry[e.actor] {
+						// the actor has just committed: exactly one actor runs at a time, so the commander's last log is its log
+						if ll := cmd.VerifLastLog(); ll != nil {
+							lj := logJ(s.lastCommit, ll)
+							lj["prev_id"] = nil
+							if s.lastCommit != nil {
+								lj["prev_id"] = s.lastCommit.ID.String()
+							}
+							s.lastCommit = ll
+							lj["hash"] = hex.EncodeToString(ll.Hash)
+							s.trace = append(s.trace, J{"a": e.actor, "committed": lj, "last_txid": cmd.VerifLastTXID().String()})
+						}
+					}
+					s.trace = append(s.trace, J{"a": e.actor, "arrive": e.point})
 				case 1:
 					finished[e.actor] = true
 					s.expect--
+					fin := J{"a": e.actor, "finish": true}
+					for k, v := range e.resp {
+						fin[k] = v
+					}
+					s.trace = append(s.trace, fin)
 				case 2:
 					s.parked[actorP] = "gate"
 					s.gateBatch = len(e.logs)
@@ -670,6 +722,12 @@ func runEngineSchedule(reqs []engReq, funding [][]string, ameta [][]string, plan
 				s.persBusy, s.pending, s.appendOrder, s.persisted = false, 0, nil, 0
 				s.waiting = map[int]bool{}
 				s.resume[actorP] = make(chan error)
+				st.mu.Lock()
+				s.lastCommit = nil
+				if len(st.logs) > 0 {
+					s.lastCommit = st.logs[len(st.logs)-1]
+				}
+				st.mu.Unlock()
 				s.mu.Unlock()
 				newCommander()
 				break // the phase is over: its requests never answer
@@ -698,13 +756,15 @@ func runEngineSchedule(reqs []engReq, funding [][]string, ameta [][]string, plan
 			pt := s.parked[a]
 			s.mu.Lock()
 			delete(s.parked, a)
-			s.trace = append(s.trace, J{"a": a, "at": pt, "n": len(enabled)})
+			if a != actorP {
+				s.trace = append(s.trace, J{"a": a, "at": pt, "n": len(enabled)})
+			}
 			if a == actorP {
 				gateReleases++
 				fail := plan.Fail >= 0 && gateReleases-1 == plan.Fail
+				s.trace = append(s.trace, J{"a": a, "at": pt, "n": len(enabled), "batch": s.gateBatch, "ok": !fail})
 				if fail {
 					gateFails++
-					s.trace = append(s.trace, J{"gate_fails": true})
 					// the runner dies: nothing more happens in this generation; treat as crash at the next step
 					plan.Crash = step + 1
 					s.mu.Unlock()
